@@ -28,7 +28,10 @@ MISSED8 = {"C03/2": "lives in what used to be an excluded zone (a worker that re
            "C18/2": "workers never printed; 30% of the C18 runs have workers that print to the console: every line must arrive there, none in a reply",
            "C19/1": "nothing compared the number of requests the bundled client made with what was typed; added cli_requests (blank lines are not requests) for runs in which the server is never stopped",
            "C20/1": "blocks were left normally, by Exception or by cancellation; added exits by a BaseException that is neither, and by closing an async generator that yields inside the block (GeneratorExit)"}
-MISSED = MISSED8 if ROUND == 8 else MISSED7 if ROUND == 7 else MISSED6 if ROUND == 6 else {} if ROUND != 5 else {"C01/1": "the pool generator never assigned pool_size to an empty pool; added the resize_idle step (size assigned while the pool is empty, all C01 oracles continue with the new size)",
+MISSED9 = {"C04/2": "a cancel() landing after the task's first step but before its worker's first statement (a yield added at the top of the wrapper) looked, to the harness, exactly like the recorded finding F-EARLY and was steered around; the loop now counts task steps, and only a task that has never stepped counts as the F-EARLY trigger",
+           "C18/2": "no C18 run stopped the server while a command was still waiting; 40% of the parked-waiter runs now cancel the serving task before the line that ends the wait (lines sent before the stop must still be answered; the closed state is probed through the public API)",
+           "C16/1": "the extended class had no member with an unresolvable forward reference as RETURN annotation (the parser never needs return annotations); added make_report() -> 'Report'"}
+MISSED = MISSED9 if ROUND == 9 else MISSED8 if ROUND == 8 else MISSED7 if ROUND == 7 else MISSED6 if ROUND == 6 else {} if ROUND != 5 else {"C01/1": "the pool generator never assigned pool_size to an empty pool; added the resize_idle step (size assigned while the pool is empty, all C01 oracles continue with the new size)",
           "C03/2": "callbacks were always closures; added callbacks that are bound methods of an object nothing else refers to (kinds sm/am/gm)",
           "C04/1": "the injected factory failure was always a FactoryError; the exception type now varies (FactoryError, TypeError, ValueError, KeyError, AttributeError)",
           "C04/2": "payload keyword names were always kw_x; added payload shapes whose keyword names coincide with the library's own parameter names (group_name, func, num, end_callback, self, args, kwargs ...)",
